@@ -615,9 +615,10 @@ func runAliasSeq(n int, del []int, cause string) {
 	if r.incon == "" {
 		if after := snapshot(); after != before {
 			sig := "counter-leak"
-			if r.sig != "" {
-				sig = r.sig
-			} else if !viewOK {
+			onlyAliases := after.Procs == before.Procs && after.Names == before.Names && after.Events == before.Events
+			if onlyAliases && r.sig != "" {
+				sig = r.sig // the leaked alias found above, counted
+			} else if onlyAliases && !viewOK {
 				sig = "delete-alias-wrong-element"
 			}
 			r.fail(sig, "node counters after the case %+v differ from before %+v (processes, names, aliases, events)", after, before)
